@@ -485,7 +485,7 @@ ensures unmoved(*old(p), *final(p)), r.kind == self.kind, r.pos == self.pos,
     def dflt(fileprops):
         def f(name, sig):
             if re.search(r'\bp\s*:\s*&mut\s+Parser', sig):
-                kw = dict(spec=gspec(), props=P, nodecreases=True, all_loops='invariant crate::parser::mono(*old(p), *p),')
+                kw = dict(spec=gspec(), props=P, nodecreases=True, all_loops=DEC)     # a loop without its own entry in LOOPS (a new one) gets the standard frame and measure
                 req = REQ.get(name, '')
                 for rel_ in STARTS_AT:
                     if name in STARTS_AT[rel_]:
